@@ -170,8 +170,11 @@ func genSeqPlan(prop string, seed uint64, tier string) *Plan {
 	switch prop {
 	case "C02":
 		w.restart = 5
-	case "C03", "C18":
+	case "C03", "C18", "C07":
 		w.restart = 2
+		if prop == "C07" {
+			w.restart = 6 // a restart leaves a short data file behind: "append to an earlier non-full file" destinations
+		}
 		w.gc = 4
 		w.set = 45
 		w.del = 14
